@@ -155,7 +155,18 @@ func configs(prop string, thorough bool) []*Config {
 			},
 			Logins: []LoginDef{{PID: 4294967397}, {PID: 101}},
 		}
-		return append([]*Config{c, r, w64}, extra...)
+		// a login for a pid whose session is open and already has its login (a re-sent line, a second authentication
+		// logged by the same sshd process) while a session of ANOTHER pid is held without login: whatever the second
+		// login does to the first session, the held one stays without identity
+		again := &Config{Name: "C04-second-login-for-an-open-session", CutMode: 1, ONoLeak: true, OSeq: true, OIdent: true,
+			Sess: []SessDef{
+				{ID: "1", PID: "101", Events: []auparse.AuditMessageType{tLOGIN, tEV, tDISP}},
+				{ID: "2", PID: "103", Events: []auparse.AuditMessageType{tLOGIN, tEV, tDISP}}, // no ssh login of its own
+				{ID: "3", PID: "99", Events: []auparse.AuditMessageType{tLOGIN, tEV}},         // no ssh login of its own
+			},
+			Logins: []LoginDef{{PID: 101}, {PID: 101}},
+		}
+		return append([]*Config{c, r, w64, again}, extra...)
 	case "C09":
 		c := &Config{Name: "C09-reuse", CutMode: 1, OSeq: true, OIntact: true,
 			Sess: []SessDef{
@@ -223,7 +234,15 @@ func configs(prop string, thorough bool) []*Config {
 				return true
 			},
 		}
-		return []*Config{c, w, ev}
+		// the same with record timestamps of a live stream (seconds before the wall clock, not in 2023)
+		live := &Config{Name: "C16-cleanup-live-record-times", CutMode: 3, OSeq: true,
+			Sess: []SessDef{
+				{ID: "1", PID: "101", Events: ev3, Live: true},
+				{ID: "2", PID: "102", Events: ev3, Live: true},
+			},
+			Logins: []LoginDef{{PID: 101}, {PID: 102}},
+		}
+		return []*Config{c, w, ev, live}
 	}
 	return nil
 }
